@@ -1,6 +1,7 @@
 import GbVerif.Proofs.CoreStep
 import GbVerif.Proofs.CoreFrame
 import GbVerif.Proofs.SysFrame
+import GbVerif.Proofs.Machine
 import GbVerif.Props.C06
 /-!
 C09 — CPU and device time stay in lock step and the frame loop makes progress.
@@ -282,6 +283,61 @@ theorem run_frame_terminates_blockstep (tr : Nat → State) (run : FrameRun (upd
     | succ i ih => exact updateBlock_inv (run.steps i) ih
   exact run_frame_terminates_partial (updateBlock Sys.dev) tr run (fun c c' h => updateBlock_progress h) Sys.frames 0
     (fun i => by rw [Nat.zero_add]; exact (hall i).2.2)
+
+/-! ### one invariant for every reachable state of the machine
+
+`MachineOk` = buffer sizes, timer / DMA bookkeeping in range (`BusOk`), the LCD on the schedule of the delivered clocks
+(`SysInv`), time conservation (`TimeInv`), at most five cycles pending (`Small`).  It holds at power-on and is kept by
+every successful step, instruction- or block-stepped, for every program (the only ways a step can fail in the model are
+the panics of the code: an undefined opcode, execution from a non-executable area). -/
+
+theorem machine_ok_update (c c' : State) (ok : MachineOk c) (h : update Sys.dev c = .ok c') : MachineOk c' :=
+  update_machineOk ok h
+theorem machine_ok_updateBlock (c c' : State) (ok : MachineOk c) (h : updateBlock Sys.dev c = .ok c') : MachineOk c' :=
+  updateBlock_machineOk ok h
+
+/-- every state reachable from a freshly created machine, by any number of steps of either kind in any order -/
+theorem machine_ok_reachable (kind : Cart.Kind) (romBanks ramBytes : Nat) (rom : Nat → Nat) (regs : Interp.Regs)
+    (hb : 2 ≤ romBanks) (hc : regs.cycles = 0) (steps : List Bool) :
+    ∀ c', (steps.foldlM (fun c blk => if blk then updateBlock Sys.dev c else update Sys.dev c)
+            ({ regs := regs, bus := Bus.create kind romBanks ramBytes rom } : State)) = .ok c' → MachineOk c' := by
+  have key : ∀ (steps : List Bool) (c c' : State), MachineOk c →
+      steps.foldlM (fun c blk => if blk then updateBlock Sys.dev c else update Sys.dev c) c = .ok c' → MachineOk c' := by
+    intro steps
+    induction steps with
+    | nil => intro c c' ok h; injection h with h; subst h; exact ok
+    | cons b rest ih =>
+      intro c c' ok h
+      simp only [List.foldlM, bind, Except.bind] at h
+      split at h
+      · cases h
+      · rename_i c1 h1
+        refine ih c1 c' ?_ h
+        cases b with
+        | true => simp only [if_true] at h1; exact updateBlock_machineOk ok h1
+        | false => simp only [Bool.false_eq_true, if_false] at h1; exact update_machineOk ok h1
+  intro c' h
+  exact key steps _ c' (machineOk_create kind romBanks ramBytes rom regs hb hc) h
+
+/-- what the invariant buys, at every reachable state: the passage of any amount of time cannot panic, catch-up
+batches can be split or merged freely, and `run_frame` returns -/
+theorem machine_ok_facts (c : State) (ok : MachineOk c) :
+    (∀ k, k % 4 = 0 → k < 2 ^ 32 - 65536 → ∃ b', Sys.dev c.bus k = .ok b') ∧
+    (∀ a b, a % 4 = 0 → b % 4 = 0 → 4 ≤ a → a + b < 2 ^ 32 - 65536 →
+        Sys.dev c.bus (a + b) = (Sys.dev c.bus a).bind fun s1 => Sys.dev s1 b) ∧
+    (∀ tr : Nat → State, tr 0 = c → FrameRun (updateBlock Sys.dev) tr →
+        ∃ n, 0 < n ∧ n ≤ 17556 ∧ Sys.frames (tr n) ≠ Sys.frames c) := by
+  obtain ⟨⟨wf, io, hd⟩, si, _, _⟩ := ok
+  refine ⟨?_, ?_, ?_⟩
+  · intro k hk hb
+    obtain ⟨b', h, _⟩ := dev_total wf io.1 hk hb
+    exact ⟨b', h⟩
+  · intro a b ha hb ha4 hab
+    exact dev_add wf io hd a b ha hb ha4 hab
+  · intro tr h0 run
+    obtain ⟨n, hn, hne, _, hlt⟩ := run_frame_terminates_blockstep tr run (by rw [h0]; exact si)
+    refine ⟨n, hn, ?_, by rw [← h0]; exact hne⟩
+    exact run_frame_steps_le (updateBlock Sys.dev) tr run (fun c c' h => updateBlock_progress h) n hn hlt
 
 /-! ### concrete runs (the hypotheses are satisfiable; the counters move as stated) -/
 
